@@ -51,7 +51,8 @@ class SReal:
         return f"SReal({self.t})"
 
     def __hash__(self):
-        return hash(self.t)
+        # constant: equal VALUES must meet in dictionaries / sets, so every lookup compares with `==` (which forks the path)
+        return 0x5EA1
 
     def _arith(self, o, f):
         t = _real_term(o)
@@ -186,3 +187,105 @@ def model_value(model, const, default=Fraction(0)):
         a = v.approx(20)
         return Fraction(a.numerator_as_long(), a.denominator_as_long())
     return default
+
+
+# ---------------------------------------------------------------------------------------------------------------- memoised exploration
+class CachedPath(B.Path):
+    """bits.Path whose feasibility queries are memoised across runs: the answer to `is e / Not(e) satisfiable under the path condition`
+    depends only on the terms, and scenario sweeps ask the same few questions about the parameters for every bit array"""
+
+    def __init__(self, prefix, assumptions, cache):
+        super().__init__(prefix, assumptions)
+        self.cache = cache
+
+    def decide(self, e) -> bool:
+        if isinstance(e, bool):
+            return e
+        e = z3.simplify(e)
+        if z3.is_true(e):
+            return True
+        if z3.is_false(e):
+            return False
+        if self.pos < len(self.prefix):
+            d = self.prefix[self.pos]
+        else:
+            key = (tuple(c.sexpr() for c in self.pc), e.sexpr())
+            hit = self.cache.get(key)
+            if hit is None:
+                self.n_checks += 2
+                hit = self.cache[key] = (self.solver.check(e) == z3.sat, self.solver.check(z3.Not(e)) == z3.sat)
+            can_t, can_f = hit
+            if can_t and can_f:
+                self.forks.append(self.decisions + [False])
+                d = True
+            elif can_t:
+                d = True
+            elif can_f:
+                d = False
+            else:
+                raise RuntimeError("infeasible path condition")
+        self.pos += 1
+        self.decisions.append(d)
+        c = e if d else z3.Not(e)
+        self.pc.append(c)
+        self.solver.add(c)
+        return d
+
+
+def explore(fn, cache, assumptions=(), max_paths=20000, allowed_exc=(Exception,)):
+    """bits.explore with memoised feasibility queries (`cache`: a dict shared by the runs of one obligation)"""
+    work = [[]]
+    out = []
+    while work:
+        if len(out) >= max_paths:
+            raise B.PathBudget(f"more than {max_paths} paths")
+        p = CachedPath(work.pop(), assumptions, cache)
+        B._CUR = p
+        try:
+            try:
+                res = B.PathResult(None, None, value=fn())
+            except B.PathBudget:
+                raise
+            except allowed_exc as ex:
+                if isinstance(ex, RuntimeError) and "infeasible path" in str(ex):
+                    raise
+                res = B.PathResult(None, None, exc=ex)
+        finally:
+            B._CUR = None
+        res.pc, res.decisions = list(p.pc), list(p.decisions)
+        out.append(res)
+        work.extend(p.forks)
+    return out
+
+
+def covers_everything(results, cache, assumptions=()):
+    key = ("covers", tuple(tuple(c.sexpr() for c in r.pc) for r in results))
+    if key not in cache:
+        cache[key] = B.covers_everything(results, assumptions)
+    return cache[key]
+
+
+def pc_bindings(pc):
+    """(parameter, numeral) pairs fixed by equalities of the path condition"""
+    out = []
+    for c in pc:
+        if z3.is_eq(c):
+            a, b = c.arg(0), c.arg(1)
+            if z3.is_rational_value(a) and z3.is_const(b) and not z3.is_rational_value(b):
+                out.append((b, a))
+            elif z3.is_rational_value(b) and z3.is_const(a) and not z3.is_rational_value(a):
+                out.append((a, b))
+    return out
+
+
+def difference_value(ta, tb, pc=()):
+    """exact rational value of ta - tb when it is a constant (polynomial normal form, after substituting the parameters the path
+    condition fixes), else None"""
+    d = ta - tb
+    binds = pc_bindings(pc)
+    if binds:
+        d = z3.substitute(d, *binds)
+    d = z3.simplify(d, som=True)
+    if z3.is_rational_value(d):
+        return Fraction(d.numerator_as_long(), d.denominator_as_long())
+    return None
